@@ -84,6 +84,11 @@ func shutdownWithReason(session *session, msg *Message, incrNextTargetMsgSeqNum 
 	}
 
 	if incrNextTargetMsgSeqNum {
+		// The refused Logon uses up the expected number only if that is the number it carries (the
+		// application is asked before the sequence number is looked at).
+		if seqNum, err := msg.Header.GetInt(tagMsgSeqNum); err == nil && seqNum != session.store.NextTargetMsgSeqNum() {
+			return latentState{}
+		}
 		if err := session.store.IncrNextTargetMsgSeqNum(); err != nil {
 			session.logError(err)
 		}
